@@ -111,6 +111,19 @@ Definition spec_blocks (v : Z) (l : qlevel) : block_layout :=
 Definition spec_data_codewords (v : Z) (l : qlevel) : Z :=
   let b := spec_blocks v l in bl_n1 b * bl_k1 b + bl_n2 b * (bl_k1 b + 1).
 
+(* the library's level numbering, inverse of level_of_Z *)
+Definition level_Z (l : qlevel) : Z := Z.of_nat (level_index l).
+
+(* Table 9 in the row format of the library: (version, level, ecc per block, blocks in
+   group 1, data codewords per group-1 block, blocks in group 2, data codewords per
+   group-2 block; the last is 0 when there is no group 2), versions ascending *)
+Definition iso_row (v : Z) (l : qlevel) : Z * Z * Z * Z * Z * Z * Z :=
+  let b := spec_blocks v l in
+  (v, level_Z l, bl_e b, bl_n1 b, bl_k1 b, bl_n2 b, if bl_n2 b =? 0 then 0 else bl_k1 b + 1).
+
+Definition iso_rows : list (Z * Z * Z * Z * Z * Z * Z) :=
+  flat_map (fun v => map (iso_row v) [LvL; LvM; LvQ; LvH]) (sseq 1 40).
+
 (* ---------- alignment pattern centres (Annex E, Table E.1) ---------- *)
 Definition alignment_table : list (list Z) :=
   [[]; [6; 18]; [6; 22]; [6; 26]; [6; 30]; [6; 34];
@@ -205,6 +218,9 @@ Definition format_coord2 (size i : Z) : Z * Z :=
   if i <=? 7 then (size - 1 - i, 8) else (8, size - 15 + i).
 
 Definition msb_indices (n : nat) : list Z := map (fun i => Z.of_nat n - 1 - i) (sseq 0 n).
+
+(* the n low bits of w, most significant first *)
+Definition word_bits (n : nat) (w : Z) : list bool := map (Z.testbit w) (msb_indices n).
 
 Definition format_coords1 : list (Z * Z) := map format_coord1 (msb_indices 15).
 Definition format_coords2 (size : Z) : list (Z * Z) := map (format_coord2 size) (msb_indices 15).
